@@ -873,7 +873,8 @@ fn main() {
         }
     }
     // detach held threads if any remain (divergence): they were killed above
-    let drain_deadline = std::time::Instant::now() + std::time::Duration::from_millis(3000);
+    let drain_deadline = std::time::Instant::now() + std::time::Duration::from_millis(if ctl.crashed { 15000 } else { 5000 });
+    let was_crashed = ctl.crashed;
     ctl.deadline = drain_deadline;
     loop {
         match ctl.pump() {
@@ -884,8 +885,9 @@ fn main() {
                         unsafe { libc::kill(a.pid, libc::SIGKILL) };
                     }
                 }
-                ctl.deadline = std::time::Instant::now() + std::time::Duration::from_millis(2000);
-                if status == "ok" {
+                ctl.deadline = std::time::Instant::now() + std::time::Duration::from_millis(5000);
+                // slow reaping of a group we killed ourselves is not a verdict about the actors
+                if status == "ok" && !was_crashed {
                     status = "timeout".into();
                 }
             }
